@@ -366,9 +366,39 @@ class Tagged(object):
 REDUCERS = ('count', 'count_nonzero', 'sum', 'prod', 'any', 'all', 'min', 'max', 'argmin', 'argmax')
 
 
-def run_func(func, parts):
+class Impure(Exception):
+    """an operation changed one of its operands (C12: operations are pure)"""
+
+
+def _snapshot(arrs):
     ak, np = _load()
+    out = []
+    for a in arrs:
+        if isinstance(a, ak.highlevel.Array):
+            out.append(sx_from_layout(a.layout))
+        elif isinstance(a, ak.layout.Content):
+            out.append(sx_from_layout(a))
+        else:
+            out.append(None)
+    return out
+
+
+def run_func(func, parts):
+    """the call, with every array operand dumped (all buffers, reachable or not) before and after it"""
     plain, arrs = split_args(parts)
+    before = _snapshot(arrs)
+    try:
+        r = _run_func(func, plain, arrs)
+    finally:
+        after = _snapshot(arrs)
+        for k, (b, a) in enumerate(zip(before, after)):
+            if b != a:
+                raise Impure('%s modified its array operand #%d: before %s after %s' % (func, k, b[:400], a[:400]))
+    return r
+
+
+def _run_func(func, plain, arrs):
+    ak, np = _load()
     if func == 'flatten':
         return ak.flatten(arrs[0], axis=opt_int(plain[0]))
     if func == 'ravel':
@@ -528,6 +558,8 @@ def one(line):
         if 'unknown function' in str(e):
             return '(%s bad %s)' % (cid, hexs(str(e)))
         return '(%s err other %s)' % (cid, hexs(type(e).__name__ + ': ' + str(e)[:300]))
+    except Impure as e:
+        return '(%s impure %s)' % (cid, hexs(str(e)))
     except Exception as e:
         from pyshim.driver import DriverCrashed
         if isinstance(e, DriverCrashed):
